@@ -269,7 +269,8 @@ def task_name() -> str:
     """Name of the simulated task on whose behalf code is running ('-' if none)."""
     loop = events._get_running_loop()
     if loop is None:
-        return "-"
+        from . import threads as _threads
+        return _threads.current_name() or "-"
     if isinstance(loop, SimLoop) and loop.job_task is not None:
         return loop.job_task
     t = asyncio.current_task(loop)
